@@ -416,7 +416,7 @@ func outstanding(h *History, emit func(string, ...any)) {
 	select {
 	case r := <-done:
 		emit("R 0 close=%s ticks=%d result=%s v=%d", classify(cerr), ticks.Load(), r.e, r.v)
-	case <-time.After(20 * time.Second):
+	case <-time.After(60 * time.Second):
 		emit("R 0 HANG ticks=%d", ticks.Load())
 	}
 }
